@@ -118,3 +118,21 @@ Proof.
 Qed.
 
 End Downgrading.
+
+(* ---- the exponential backoff's nap (without jitter): bounds and monotonicity ------------------------ *)
+Lemma backoff_bounds_lemma mn mx a : 1 <= a ->
+  0 <= nap_lo mn mx a <= nap_hi mn mx a /\ nap_hi mn mx a <= eff_max mx
+  /\ nap_lo mn mx a <= nap_lo mn mx (a + 1) /\ nap_hi mn mx a <= nap_hi mn mx (a + 1)
+  /\ (eff_max mx + (eff_min mn + 1) / 2 <= eff_min mn * 2 ^ (a - 1) -> nap_lo mn mx a = eff_max mx /\ nap_hi mn mx a = eff_max mx).
+Proof.
+  intros Ha. unfold nap_lo, nap_hi.
+  assert (Hm : 1 <= eff_min mn). { unfold eff_min. destruct (mn <=? 0) eqn:E; lia. }
+  assert (Hx : 1 <= eff_max mx). { unfold eff_max. destruct (mx <=? 0) eqn:E; lia. }
+  assert (Hp : 1 <= 2 ^ (a - 1)). { apply (Z.pow_le_mono_r 2 0 (a - 1)); lia. }
+  assert (Hq : 2 ^ (a + 1 - 1) = 2 * 2 ^ (a - 1)).
+  { replace (a + 1 - 1) with (Z.succ (a - 1)) by lia. rewrite Z.pow_succ_r; lia. }
+  rewrite Hq.
+  set (m := eff_min mn) in *. set (x := eff_max mx) in *. set (q := 2 ^ (a - 1)) in *.
+  assert (m <= m * q) by nia.
+  repeat split; try lia; try nia.
+Qed.
